@@ -933,8 +933,15 @@ def r_once(ctx, view):
                 idx = strip(x[2][1])
                 if idx[0] == "field":
                     h = strip(idx[1])
-                    if h[0] == "call" and h[1].split("::")[-1] == "get_unchecked" and component(h[2][0]) and component(h[2][0])[0] == "heap":
+                    while h[0] in ("some", "deref", "ref") or (h[0] == "call" and h[1].split("::")[-1] in ("unwrap", "expect", "unwrap_unchecked") and h[2]):
+                        h = strip(h[1] if h[0] != "call" else h[2][0])
+                    p = None
+                    # unchecked, checked (`heap[position.0]`) or optional (`heap.get(position.0)`) read of the heap slot: the same slot
+                    if h[0] == "call" and h[1].split("::")[-1] in ("get_unchecked", "get", "index") and component(h[2][0]) and component(h[2][0])[0] == "heap":
                         p = strip(h[2][1])
+                    elif h[0] == "index" and component(h[1]) and component(h[1])[0] == "heap":
+                        p = strip(h[2])
+                    if p is not None:
                         good = p[0] == "field" and is_param(p[1], 2)
         ctx.ob("R-ONCE", "Store::swap_remove_if:predicate-sees-entry-at-position", good, f.loc(), "predicate receives map[heap[position]]")
     ctx.ob("R-ONCE", "Store::swap_remove_if:predicate-once", ok, f.loc(), why)
